@@ -163,7 +163,7 @@ def run(ctx):
     from unittest import mock
     import tempfile, os
     for word_, meth in (("key", "keyPress"), ("kdown", "keyDown"), ("keydown", "keyDown"), ("kup", "keyUp"), ("keyup", "keyUp")):
-        for key_ in ("a", "ctrl-c", "enter"):
+        for key_ in ("a", "ctrl-c", "enter", "ctrl-+", "shift-+", "+", "+-a", "ctrl-alt-del", "A"):
             fac = mock.Mock()
             command.build_command_list(fac, [word_, key_])
             calls = [c.args for c in fac.deferred.addCallback.call_args_list]
